@@ -50,7 +50,7 @@ def _sh(cmd, d, timeout):
 
 
 def _write(d, name, text):
-    with open(os.path.join(d, name), "w") as f:
+    with open(os.path.join(d, name), "w", encoding="utf-8", newline="\n") as f:
         f.write(text)
 
 
